@@ -574,6 +574,9 @@ class Fn:
                     cur = red
                 elif cur[0] == 'agg' and e['i'] < len(cur[2]) and cur[1] in ('tuple',) :
                     cur = cur[2][e['i']]
+                elif cur[0] == 'agg' and str(cur[1]).startswith('adt:') and len(cur) > 3 and nm in cur[3] and len(cur[3]) == len(cur[2]) \
+                        and e.get('adt', '') and str(cur[1])[4:].startswith(strip_generics(e['adt']).split('<')[0]):
+                    cur = cur[2][list(cur[3]).index(nm)]   # field of a struct value built right here (a small record returned by a helper)
                 elif cur[0] == 'agg' and str(cur[1]).startswith('closure:') and e['i'] < len(cur[2]) and '{closure' in e.get('adt', ''):
                     cur = cur[2][e['i']]   # capture of a known closure value (inlined closure body)
                 elif cur[0] == 'deref' and cur[1][0] == 'agg' and str(cur[1][1]).startswith('closure:') and e['i'] < len(cur[1][2]) and '{closure' in e.get('adt', ''):
@@ -1403,6 +1406,15 @@ def atom_of(cond, val, ty=None):
 # --------------------------------------------------------------------------- program
 
 
+def _is_static_key(base_all, k):
+    """is the pinned key `k` a static (its pinned entry is a single type, and no function/ADT of that name is pinned)?"""
+    st = base_all.get('statics')
+    if st is not None:
+        return k in st
+    last = k.rsplit('::', 1)[-1]
+    return last.isupper() or (last.replace('_', '').isupper())
+
+
 class Program:
     def __init__(self, fact_dir, cfg='A'):
         self.cfg = cfg
@@ -1434,6 +1446,11 @@ class Program:
                     sty = [body['body']['locals'][0]['ty']] if body else [x['ty']]
                     ks = [k for k in bf if k not in cur_paths and k.rsplit('::', 1)[-1] == n.rsplit('::', 1)[-1] and bf[k] == sty
                           and (n.rsplit('::', 1)[0].startswith(k.rsplit('::', 1)[0] + '::') or k.rsplit('::', 1)[0].startswith(n.rsplit('::', 1)[0] + '::'))]
+                    if not ks:
+                        # a private static renamed in place: same module, same type, and exactly one pinned static of that type in
+                        # that module has disappeared
+                        ks = [k for k in bf if k not in cur_paths and bf[k] == sty and k.rsplit('::', 1)[0] == n.rsplit('::', 1)[0]
+                              and base_all.get('kinds', {}).get(k, 'static') == 'static' and _is_static_key(base_all, k)]
                     if len(ks) == 1:
                         sren[n] = ks[0]
             if sren and len(set(sren.values())) == len(sren):
